@@ -11,7 +11,7 @@ HOOKS = {
 ENGINES = [
     {"name": "tlc", "path": "/verif/lib/vlib/tlc.py", "kind_free_text": "TLC 1.8 explicit-state model checker over spec/*.tla",
      "serves_properties": []},
-    {"name": "harness-agent", "path": "/verif/harness/agent", "serves_properties": ["C01", "C02", "C03", "C04", "C05", "C07", "C10", "C11", "C14", "C15", "C16", "C18", "C19"],
+    {"name": "harness-agent", "path": "/verif/harness/agent", "serves_properties": ["C01", "C02", "C03", "C04", "C05", "C07", "C10", "C11", "C13", "C14", "C15", "C16", "C18", "C19"],
      "kind_free_text": "cargo crate compiling /repo/proxy_agent/src through symlinks with the verif cfg; drivers: "
                        "function tables, proxy rig (real ProxyServer + mock hosts in a netns), disk, ..."},
     {"name": "harness-ebpf", "path": "/verif/harness/ebpf", "serves_properties": ["C06"],
@@ -28,6 +28,12 @@ NOTES = ("Every check: bin/check <id> --tier quick|thorough. TLA+ specs in spec/
 NOT_APPLICABLE = {}
 
 CHECKS = {
+    "C13": {
+        "text": "RobustCut.tla defines the required truncation (total, whole characters, at most N bytes) and TLC enumerates every way up to 6 UTF-8 characters of widths 1-4 can straddle a byte cut; Robust.tla model-checks the service claim (every hostile input class leaves listener and tasks alive, every request answered - liveness). Each cut vector is padded to the real constants and fed to the real truncation sites (event message 4096, module status 1024); the connection-summary cut is reached through real caller processes whose command lines carry 2/3/4-byte characters at all four alignments; obs-text header values, repeated headers, very long URLs are sent to the real server; odd-length UTF-16, long non-ASCII and wrong-content-type replies are served to the real host clients; the log-line header is exercised 2*10^6 times. A process-wide panic hook records every panic; TLC validates the recorded input/outcome events against RobustTrace.tla (no panic, answered, follow-up probe served, status still published).",
+        "note": "Inputs are the enumerated classes, not all byte strings; the clock-dependent log-header site is covered by repetition; Windows-only code not covered.",
+        "technique": "TLA+ spec + TLC (cut-vector enumeration, service model with liveness); spec->impl replay of vectors and input classes; panic hook; impl->spec trace validation",
+        "design_ref": "DESIGN.md §3 Robust.tla",
+    },
     "C04": {
         "text": "Canon.tla defines the string to sign on byte sequences; TLC checks over a complete small universe (colliding keys a=bc/ab=c, repeated and mixed-case names, valueless keys, blanks) that it covers every header and every query parameter (Injective, Deterministic). Seeded adversarial requests go through the real proxy and through hyper_client::build_request; the request AS RECEIVED by the mock host is tokenised, TLC (CanonTrace) computes the canonical string, and HMAC-SHA256 with Python's hmac under the key registered for the announced id must equal the header's MAC; exactly one authorization header with the right scheme and key id on non-exempt requests, none added on exempt ones; builder route and parts route compared on the same request.",
         "note": 'Kernel audit map replaced by the cfg-guarded stand-in (hooks H1/H2); mock hosts in a private netns capture raw bytes.',
